@@ -18,6 +18,7 @@ import Hts.Lemmas.IndexIORead
 import Hts.Lemmas.IndexIOTabixRead
 import Hts.Lemmas.IndexIOCsiRead
 import Hts.Lemmas.IndexCsiRepr
+import Hts.Lemmas.IndexCsiAny
 import Hts.Lemmas.IndexTabixRepr
 import Hts.Props.C04
 namespace Hts.Props.C15
@@ -284,6 +285,86 @@ theorem csi_chunks_complete_after_roundtrip (ms d : Nat) (hd : d ≤ 10) (hgeom 
   rw [IndexIO.csi_chunks_norm]
   exact (Hts.Props.C04.csi_chunks_complete ms d (by omega) hgeom recs h r hr hp beg stop hb hq hs hov1 hov2 id encLaw_id).1
 
+/-! ### CSI: ANY sequence of `Add` calls (no sortedness, rejected calls included) -/
+
+/-- the bin number `csi.Index.Add` computes for a record whose start position `validIndexPos` accepts — whatever its
+end is (before the start, equal to it, `-1`) and including the start `-1` the code admits — is a bin number of the
+geometry: below the bin limit `((1 << 3(depth+1)) - 1)/7` that `WriteTo`/`ReadFrom` compute, for every minimum shift
+and every depth ≤ 10 -/
+theorem csi_reg2bin_lt_binLimit (ms d : Nat) (hd : d ≤ 10) (start stop : Int)
+    (hv : Csi.validPos ms d start = true) : Coord.reg2bin start stop ms d < csiBinLimit d := by
+  obtain ⟨h0, h1⟩ := Csi.validPos_range ms d start hv
+  exact reg2bin_lt_binLimit_any ms d hd start stop h0 h1
+
+/-- the bin-count clause of `CWF` (`CRefBounds.nb`: what `csi.readBins` checks since a0b84ad — at most every bin of
+the geometry plus the statistics pseudo-bin) is a THEOREM of the model of `Add`, with no hypothesis on the records:
+after EVERY sequence of `Add` calls (sorted or not, accepted or rejected, any positions, ids and chunks) on a fresh
+index of any minimum shift and depth ≤ 10, the bin numbers of a reference are pairwise distinct and below the bin
+limit, hence `len(bins) + [stats present] ≤ binLimit + 1` -/
+theorem csi_built_bin_count (ms d : Nat) (hd : d ≤ 10) (version : Nat) (aux : List UInt8) (recs : List Csi.CRec)
+    (ref : Csi.CRef)
+    (href : ref ∈ (Csi.addAll Coord.reg2bin { aux := aux, version := version, minShift := ms, depth := d } recs).1.refs) :
+    (ref.bins.map (·.bin)).Nodup ∧ (∀ b, b ∈ ref.bins → b.bin < csiBinLimit d) ∧
+      ref.bins.length + (if ref.stats.isSome then 1 else 0) ≤ csiBinLimit d + 1 :=
+  csi_any_bin_count ms d hd _ ⟨rfl, rfl, rfl⟩ rfl rfl recs ref href
+
+/-- `built_wf` for CSI at full strength: the index after EVERY sequence of `Add` calls on a fresh index is
+representable (`CWF`) — no sortedness, no `0 ≤ start < end` for placed records (the code does not check either),
+calls that `Add` rejects included (a call rejected for position order has already entered its bin).  Hypotheses on
+the input sizes only: depth ≤ 10, minShift + 3·depth ≤ 62, fewer than 2^31 − 1 calls, reference ids below 2^31 − 1,
+chunk offsets in the int64 range (any order of begin and end) -/
+theorem csi_built_wf_any (ms d : Nat) (hd : d ≤ 10) (hgeom : ms + 3 * d ≤ 62)
+    (version : Nat) (hver : version = 1 ∨ version = 2) (aux : List UInt8) (haux : aux.length < 2147483648)
+    (recs : List Csi.CRec) (hlen : recs.length < 2147483647)
+    (hrid : ∀ r, r ∈ recs → r.rid < 2147483647)
+    (hoff : ∀ r, r ∈ recs → OffOK r.chunk.b ∧ OffOK r.chunk.e) :
+    CWF (Csi.addAll Coord.reg2bin { aux := aux, version := version, minShift := ms, depth := d } recs).1 :=
+  csi_any_cwf ms d hd hgeom _ ⟨rfl, rfl, rfl⟩ rfl rfl hver haux recs hlen hrid hoff
+
+/-- `read_write` for a BUILT CSI index without the `CWF` hypothesis: whatever sequence of `Add` calls built the
+index, `ReadFrom (WriteTo i)` is its canonical form and writing that again gives identical bytes -/
+theorem csi_built_read_write (ms d : Nat) (hd : d ≤ 10) (hgeom : ms + 3 * d ≤ 62)
+    (version : Nat) (hver : version = 1 ∨ version = 2) (aux : List UInt8) (haux : aux.length < 2147483648)
+    (recs : List Csi.CRec) (hlen : recs.length < 2147483647)
+    (hrid : ∀ r, r ∈ recs → r.rid < 2147483647)
+    (hoff : ∀ r, r ∈ recs → OffOK r.chunk.b ∧ OffOK r.chunk.e) :
+    let i := (Csi.addAll Coord.reg2bin { aux := aux, version := version, minShift := ms, depth := d } recs).1
+    readCsi (writeCsi i) = .ok (normCsi i) ∧ writeCsi (normCsi i) = writeCsi i :=
+  ⟨readCsi_writeCsi _ (csi_built_wf_any ms d hd hgeom version hver aux haux recs hlen hrid hoff), writeCsi_norm _⟩
+
+/-- the same statement for every geometry `csi.New`, `Add`, `WriteTo` AND `ReadFrom` accept (minShift + 3·depth ≤ 62,
+depth up to 20), i.e. without `depth ≤ 10` -/
+def csi_built_read_write_full : Prop :=
+  ∀ (ms d : Nat), ms + 3 * d ≤ 62 → ∀ (version : Nat), version = 1 ∨ version = 2 →
+    ∀ (aux : List UInt8), aux.length < 2147483648 → ∀ (recs : List Csi.CRec), recs.length < 2147483647 →
+      (∀ r, r ∈ recs → r.rid < 2147483647) → (∀ r, r ∈ recs → OffOK r.chunk.b ∧ OffOK r.chunk.e) →
+      readCsi (writeCsi (Csi.addAll Coord.reg2bin { aux := aux, version := version, minShift := ms, depth := d } recs).1)
+        = .ok (normCsi (Csi.addAll Coord.reg2bin { aux := aux, version := version, minShift := ms, depth := d } recs).1)
+
+/-- one record on `csi.New(1, 11)`: `[1227133516, 1227133517)` gets bin 613566756 + 613566758 = 1227133514 (the level
+offset is the wrapped `uint32` value), which is the statistics pseudo-bin number of depth 11 -/
+def exCsiDeep : List Csi.CRec := [⟨0, 1227133516, 1227133517, ⟨0, 100⟩, true, true⟩]
+
+/-- `depth ≤ 10` cannot be dropped: at depth 11 the `uint32` bin numbers wrap and a real bin gets the number of the
+statistics pseudo-bin; the index `Add` and `WriteTo` accept does not read back (the real `ReadFrom` answers
+"malformed dummy bin header") -/
+theorem csi_built_read_write_witness : ¬ csi_built_read_write_full := by
+  intro hfull
+  have h := hfull 1 11 (by decide) 2 (Or.inr rfl) [] (by decide) exCsiDeep (by decide) (by decide) (by decide)
+  generalize hi : (Csi.addAll Coord.reg2bin { aux := [], version := 2, minShift := 1, depth := 11 } exCsiDeep).1 = i at h
+  have wf := readCsi_wf h
+  have e1 : i.refs = [⟨[⟨1227133514, 0, 1, [⟨0, 100⟩]⟩], some ⟨⟨0, 100⟩, 1, 0⟩⟩] := by subst hi; decide
+  have e2 : i.isSorted = false := by subst hi; decide
+  have e3 : i.version = 2 := by subst hi; decide
+  have e4 : i.depth = 11 := by subst hi; decide
+  have hm : (⟨[⟨1227133514, 0, 1, [⟨0, 100⟩]⟩], some ⟨⟨0, 100⟩, 1, 0⟩⟩ : Csi.CRef) ∈ (normCsi i).refs := by
+    simp [normCsi, Csi.sort, Csi.sortRef, sortChunks, e1, e2, e3]
+  have hb := wf.bounds _ hm
+  have := (hb.bins ⟨1227133514, 0, 1, [⟨0, 100⟩]⟩ (by simp)).2.1
+  have e5 : (normCsi i).depth = 11 := e4
+  rw [e5] at this
+  exact this (by decide)
+
 /-! ### statistics equal the true counts -/
 
 /-- `stats_true` (`internal.Index`, hence BAI and tabix): after any coordinate-sorted sequence, for
@@ -424,5 +505,48 @@ example : CWF (Csi.addAll Coord.reg2bin { aux := [1, 2, 3], version := 1, minShi
     Hts.Props.C04.exCsi).1 :=
   csi_built_wf 4 2 (by decide) (by decide) 1 (Or.inl rfl) [1, 2, 3] (by decide) Hts.Props.C04.exCsi (by decide)
     (by decide) (by decide) (by decide)
+
+/-! ### non-vacuity of the "any sequence of `Add` calls" theorems (extension round 4) -/
+
+/-- `csi.New(2, 1)` (positions 0 … 30, bins 0 … 8 of width 4): a call sequence that is NOT coordinate sorted and mostly
+rejected, and that uses EVERY bin of the geometry — a placed record with start −1 and end 0 (`-1 >> 2 = -1` on both
+sides: bin `1 + uint32(-1) = 0`; rejected for position order after its bin was entered, as are the calls in descending
+order that follow the last leaf bin), a record with end before start and a chunk with end before begin, an unplaced
+record, a record on an earlier reference (rejected for reference order), a reference further on, an out-of-range
+end (rejected) -/
+def exCsiAny : List Csi.CRec :=
+  [ ⟨1, -1, 0, ⟨10, 20⟩, true, true⟩, ⟨1, 28, 30, ⟨20, 30⟩, true, true⟩, ⟨1, 24, 25, ⟨30, 40⟩, true, false⟩,
+    ⟨1, 20, 21, ⟨40, 50⟩, true, true⟩, ⟨1, 16, 19, ⟨50, 60⟩, true, true⟩, ⟨1, 12, 13, ⟨60, 70⟩, true, true⟩,
+    ⟨1, 8, 9, ⟨70, 80⟩, true, true⟩, ⟨1, 4, 5, ⟨80, 90⟩, true, true⟩, ⟨1, 0, 1, ⟨90, 100⟩, true, true⟩,
+    ⟨1, 9, 2, ⟨100, 90⟩, true, true⟩, ⟨-1, -1, -1, ⟨100, 110⟩, false, false⟩, ⟨0, 3, 4, ⟨110, 120⟩, true, true⟩,
+    ⟨3, 0, 30, ⟨120, 130⟩, true, true⟩, ⟨3, 28, 31, ⟨130, 140⟩, true, true⟩ ]
+
+def exCsiAnyBuilt : Csi.CIndex × List AddRes :=
+  Csi.addAll Coord.reg2bin { aux := [7], version := 2, minShift := 2, depth := 1 } exCsiAny
+
+/-- the sequence is outside `CSortedInput`, several calls are rejected … -/
+example : ¬ Csi.CSortedInput 2 1 exCsiAny := by decide
+example : exCsiAnyBuilt.2 = [.errPosOrder, .ok, .errPosOrder, .errPosOrder, .errPosOrder, .errPosOrder, .errPosOrder,
+    .errPosOrder, .errPosOrder, .errPosOrder, .ok, .errRefOrder, .ok, .errRange] := by decide
+set_option maxRecDepth 100000 in
+/-- … reference 1 holds all nine bins of the geometry and statistics: the bound of `csi_built_bin_count` is attained
+(`nBins = binLimit + 1 = 10`) -/
+example : (exCsiAnyBuilt.1.refs.map (fun r => (r.bins.map (·.bin), r.stats.isSome))) =
+    [([], false), ([0, 8, 7, 6, 5, 4, 3, 2, 1], true), ([], false), ([0], true)] ∧ csiBinLimit 1 + 1 = 10 := by decide
+/-- … and the hypotheses of `csi_built_wf_any`/`csi_built_read_write` hold of it -/
+example : CWF exCsiAnyBuilt.1 :=
+  csi_built_wf_any 2 1 (by decide) (by decide) 2 (Or.inr rfl) [7] (by decide) exCsiAny (by decide) (by decide)
+    (by decide)
+example : readCsi (writeCsi exCsiAnyBuilt.1) = .ok (normCsi exCsiAnyBuilt.1) :=
+  (csi_built_read_write 2 1 (by decide) (by decide) 2 (Or.inr rfl) [7] (by decide) exCsiAny (by decide) (by decide)
+    (by decide)).1
+example : ∀ ref, ref ∈ exCsiAnyBuilt.1.refs → ref.bins.length + (if ref.stats.isSome then 1 else 0) ≤ csiBinLimit 1 + 1 :=
+  fun ref href => (csi_built_bin_count 2 1 (by decide) 2 [7] exCsiAny ref href).2.2
+/-- `csi_reg2bin_lt_binLimit` at the edges: start −1, the last valid position, an end before the start -/
+example : Coord.reg2bin (-1) 0 2 1 = 0 ∧ Coord.reg2bin 28 30 2 1 = 8 ∧ Coord.reg2bin 9 2 2 1 = 0 ∧
+    Coord.reg2bin (-1) 0 14 5 = 4680 ∧ csiBinLimit 5 = 37449 := by decide
+/-- the depth-11 witness record is accepted by `Add` -/
+example : (Csi.addAll Coord.reg2bin { aux := [], version := 2, minShift := 1, depth := 11 } exCsiDeep).2 = [.ok] := by
+  decide
 
 end Hts.Props.C15
